@@ -68,7 +68,7 @@ line; 1 that made `unfill("")` report width 1 — a gap in C15's conclusion chec
 compares the returned width with the widest line and reports it with the input `""`);
 the remaining 36 are equivalent mutants (13 capacity hints; 6 variants of the
 byte-length-shortcut conditions, unobservable by theorem C05; conditions whose extra case
-is unreachable or idempotent, e.g. `NonEmptyLines` re-skipping the `\n` it did not consume;
+is unreachable or idempotent, e.g. `NonEmptyLines` re-skipping the line feed it did not consume;
 constants added to every entry of the cost matrix; one line of the `hyphenation` feature,
 which is not compiled). A second family (`tools/mutgen2.py`: statement deletion, conditions
 forced to `true`/`false`, iterator/Option method swaps; 205 mutants, 3 do not compile, 178
